@@ -776,6 +776,49 @@ theorem disk_refines_map_inv (U : List Name) (hU : ∀ n ∈ U, checkRefname n =
 theorem disk_refines_map : disk_refines_map_Statement :=
   fun U hU hnc ops hops => disk_refines_map_inv U hU hnc ops emptyDisk (emptyDisk_inv U) hops
 
+/-! ## 9b. symbolic-ref chains are followed exactly as deep as C git follows them -/
+
+/-- C git's `SYMREF_MAXDEPTH` (refs.c): `refs_resolve_ref_unsafe` reads at most this many refs, so it
+resolves a chain of at most `gitSymrefMaxDepth - 1` symbolic refs in front of a direct ref
+(`HEAD -> s1 -> s2 -> s3 -> refs/heads/main` resolves, one more link does not) -/
+def gitSymrefMaxDepth : Nat := 5
+
+/-- **`follow` goes exactly as deep as git.**  A chain `n₀ -> n₁ -> … -> n_k` of `k` symbolic refs in front of
+a direct ref is followed to its end (all `k + 1` names reported, the value returned) when git resolves it —
+`k + 1 ≤ SYMREF_MAXDEPTH` — and raises `SymrefLoop` as soon as git gives up on it.  The depth test of
+`RefsContainer.follow` (comparison operator and constant) comes from Gen/Refs.lean: an off-by-one there
+breaks this theorem. -/
+theorem follow_depth_matches_git (read : Name → Option Val) (n : Name) (rest : List Name) (v : Val)
+    (h : IsChain read (n :: rest) v) :
+    (rest.length + 1 ≤ gitSymrefMaxDepth → follow read n = .ok (n :: rest, some v)) ∧
+    (gitSymrefMaxDepth < rest.length + 1 → follow read n = .error .symrefLoop) := by
+  unfold follow
+  rw [followAux_chain read v rest symrefMaxDepth n [] h]
+  have hd : symrefMaxDepth = gitSymrefMaxDepth := by decide
+  rw [hd]
+  constructor
+  · intro hk
+    have : rest.length < gitSymrefMaxDepth := by omega
+    simp [this]
+  · intro hk
+    have : ¬ rest.length < gitSymrefMaxDepth := by omega
+    simp [this]
+
+set_option maxRecDepth 8000 in
+/-- the boundary, concretely, through the files backend: `HEAD -> c3 -> c2 -> c1 -> refs/heads/m` (four symbolic
+refs) resolves and an update through HEAD lands on `refs/heads/m`; with a fifth symbolic ref in front the
+read raises `SymrefLoop` -/
+example :
+    let d : Disk := { emptyDisk with files := [(b!"HEAD", b!"ref: refs/heads/c3"), (b!"refs/heads/c3", b!"ref: refs/heads/c2"),
+        (b!"refs/heads/c2", b!"ref: refs/heads/c1"), (b!"refs/heads/c1", b!"ref: refs/heads/m"),
+        (b!"refs/heads/c4", b!"ref: HEAD")], packed := [(b!"refs/heads/m", shaA)] }
+    diskOps.getItem d b!"HEAD" = .ok shaA ∧
+    (d.setIfEquals b!"HEAD" (some shaA) shaB).1 = .ok true ∧
+    (d.setIfEquals b!"HEAD" (some shaA) shaB).2.readRef b!"refs/heads/m" = some shaB ∧
+    (d.setIfEquals b!"HEAD" (some shaA) shaB).2.readRef b!"HEAD" = some b!"ref: refs/heads/c3" ∧
+    diskOps.getItem d b!"refs/heads/c4" = .error .symrefLoop := by decide
+
+
 /-! ## 10. regression witnesses: what the code did before the fix series
 
 Each theorem is `decide`d on Model/RefsOld.lean, the model of dulwich at bb5afda (before the C16 fix
